@@ -124,6 +124,7 @@ StoredPrefixes(s, ps, m) == {InsertManyStore(s, SubSeq(ps, 1, k), m) : k \in 0..
 (* contents a crash (C12) or a failed I/O call (C13) may leave behind       *)
 CrashAllowed(a, s) ==
   {s, StoreAfter(a, s)} \cup (IF a.op = "insert_multiple" THEN StoredPrefixes(s, a.ps, a.m) ELSE {})
+  \cup (IF a.op = "reopen" /\ Mode = "w+" THEN {<<>>} ELSE {})
 
 AppendCalls == {"seek", "write", "flush", "fsync", "truncate", "tell"}
 MaxCallsPerPoint == 8
